@@ -120,7 +120,7 @@ def run(prop, args):
     exe_r, px = vf.build_driver("drv_region", "asan", extra_src=["common/vfault.c"], ldflags=WRAP)
     chk.extra["build"] = px["hash"]
     execs = []
-    behs, r = regionmod.tlc_behaviours(24 if quick else 120, 10, args.seed + 15)
+    behs, r = regionmod.tlc_behaviours(24 if quick else 400, 10 if quick else 14, args.seed + 15)
     chk.add_tlc(r, "behaviour generation (RegionGen)")
     k = 0
     for beh in behs:
@@ -128,7 +128,7 @@ def run(prop, args):
             emb = rng.choice(regionmod.embeddings(width, rng))
             execs.append(regionmod.embed(beh, emb, width, "gen%d" % k))
             k += 1
-    for i in range(40 if quick else 300):
+    for i in range(40 if quick else 1200):
         execs.append(regionmod.random_exec(rng, "rnd%d" % i, big=(i % 3 == 0)))
     # fault-free run to count allocation requests
     sp = os.path.join(wd, "ff.script")
@@ -137,7 +137,7 @@ def run(prop, args):
     vf.run_driver([exe_r, sp, tr0], tr0, timeout=600)
     nall = exec_allocs(tr0)
     faulted = []
-    cap = 10 if quick else 40
+    cap = 10 if quick else 80
     sites = 0
     for e in execs:
         name = e[0].split()[1]
@@ -150,7 +150,7 @@ def run(prop, args):
                 faulted.append(["R %s-k%d-m%d" % (name, kk, mode), "F %d %d" % (kk, mode)] + e[1:])
                 sites += 1
     # focused scenarios: every allocation request of one heavy call
-    foc = focused_scenarios(rng, 40 if quick else 250)
+    foc = focused_scenarios(rng, 40 if quick else 1000)
     spf = os.path.join(wd, "foc.script")
     open(spf, "w").write("".join("\n".join(su + [tg] + fo) + "\n" for su, tg, fo in foc))
     trf = os.path.join(wd, "foc.ndjson")
@@ -209,7 +209,7 @@ def run(prop, args):
     # 3. object scenarios under every fault position
     exe_f, _ = vf.build_driver("drv_fault", "asan", extra_src=["common/vfault.c"], ldflags=WRAP)
     otraces = []
-    seeds = [args.seed] if quick else [args.seed + i for i in range(4)]
+    seeds = [args.seed] if quick else [args.seed + i for i in range(12)]
     nsites = {}
     for sc in SCENARIOS:
         for sd in seeds:
